@@ -29,7 +29,11 @@ def demo_cmd(d, wt):
         shutil.copy(t, dst)
         files.append(dst)
         names = re.findall(r'^func (Test\w+)\(', src, re.M)
-        return 'cd %s/v4 && go test -tags verif -vet=off -count=1 -run "^(%s)$" ./%s/' % (wt, '|'.join(names), sub), files
+        race = ''
+        mp = os.path.join(d, 'meta.json')
+        if os.path.exists(mp) and re.search(r'go test[^;&|\n]*\s-race\b', json.load(open(mp)).get('demo', '')):
+            race = '-race '   # the demonstration itself asks for the race detector
+        return 'cd %s/v4 && go test %s-tags verif -vet=off -count=1 -run "^(%s)$" ./%s/' % (wt, race, '|'.join(names), sub), files
     t = os.path.join(d, 'demo')
     if os.path.isdir(t):
         dst = os.path.join(wt, 'v4', 'zzdemo')
